@@ -323,7 +323,20 @@ func Consensus(trees <-chan Trees, cutoff float64) (*Tree, error) {
 			}
 		}
 		// We add the edge into the index
+		rooted := curtree.Tree.Rooted()
+		rootseen := false
 		for _, e := range curtree.Tree.Edges() {
+			if rooted && e.Left() == curtree.Tree.Root() {
+				if rootseen {
+					// The two branches under the root of a rooted tree define the
+					// same bipartition: it counts once, with the sum of their lengths
+					if v, ok := edgeindex.Value(e); ok {
+						v.Len += e.Length()
+					}
+					continue
+				}
+				rootseen = true
+			}
 			edgeindex.AddEdgeCount(e)
 		}
 		nbtrees++
@@ -334,14 +347,21 @@ func Consensus(trees <-chan Trees, cutoff float64) (*Tree, error) {
 	// And we add it to the startree
 	for _, bs := range edgeindex.Edges(int(cutoff*float64(nbtrees)), nbtrees) {
 		names := make([]string, 0, bs.key.Bitset().Count())
+		others := make([]string, 0, 1)
 		for _, n := range alltips {
 			if idx, err := startree.TipIndex(n); err != nil {
 				return nil, err
 			} else {
 				if bs.key.Bitset().Test(uint(idx)) {
 					names = append(names, n)
+				} else if len(others) == 0 {
+					others = append(others, n)
 				}
 			}
+		}
+		// External branch seen from its other side (branch under the root of a rooted tree)
+		if nbtips > 2 && len(names) == nbtips-1 {
+			names = others
 		}
 
 		// Names of the tips in one side of the bipartition
